@@ -122,6 +122,10 @@ where
             assert_eq!(degree_bound.is_some(), commitment.shifted_comm.is_some());
 
             if let Some(degree_bound) = degree_bound {
+                // A degree bound beyond the supported degree cannot have been enforced
+                if degree_bound > vk.supported_degree() {
+                    return None;
+                }
                 let shift = point.pow([(vk.supported_degree() - degree_bound) as u64]);
                 combined_v += &(cur_challenge * &value * &shift);
                 combined_commitment_proj += &commitment.shifted_comm.unwrap().mul(cur_challenge);
